@@ -5,6 +5,7 @@ go 1.23.0
 require (
 	github.com/matrix-org/gomatrixserverlib v0.0.0
 	gopkg.in/macaroon.v2 v2.1.0
+	pgregory.net/rapid v1.3.0
 )
 
 require (
